@@ -114,8 +114,9 @@ class _Handler(object):
         return self.prices[asset] * 0.5
 
 
-def call_real(c):
-    """Returns ('err', class name) or ('q', [quantities in ascending asset order])."""
+def call_real(c, pool=None):
+    """Returns ('err', class name) or ('q', [quantities in ascending asset order]).  With a pool, the sizer object
+    (and its broker / handler) that already served earlier cases with the same kind and parameter is used again."""
     import pandas as pd
     from qstrader.portcon.order_sizer.dollar_weighted import DollarWeightedCashBufferedOrderSizer
     from qstrader.portcon.order_sizer.long_short import LongShortLeveragedOrderSizer
@@ -123,14 +124,23 @@ def call_real(c):
     assets = ASSETS[:n]
     prices = dict((a, float("nan") if p == "nan" else float(Fraction(p))) for a, p in zip(assets, c["px"]))
     weights = dict((a, (w / float(c["wdiv"])) if c["wdiv"] != 1 else float(w)) for a, w in zip(assets, c["w"]))
-    broker = _Broker(float(Fraction(c["eq"])), c["fee"])
-    dh = _Handler(prices)
     dt = pd.Timestamp("2020-01-03 21:00:00", tz="UTC")
     try:
-        if c["kind"] == "dw":
-            sizer = DollarWeightedCashBufferedOrderSizer(broker, "pf", dh, cash_buffer_percentage=float(Fraction(c["par"])))
+        key = (c["kind"], c["par"])
+        if pool is not None and key in pool:
+            sizer, broker, dh = pool[key]
+            fresh = _Broker(float(Fraction(c["eq"])), c["fee"])
+            broker.equity, broker.fee_model = fresh.equity, fresh.fee_model
+            dh.prices = prices
         else:
-            sizer = LongShortLeveragedOrderSizer(broker, "pf", dh, gross_leverage=float(Fraction(c["par"])))
+            broker = _Broker(float(Fraction(c["eq"])), c["fee"])
+            dh = _Handler(prices)
+            if c["kind"] == "dw":
+                sizer = DollarWeightedCashBufferedOrderSizer(broker, "pf", dh, cash_buffer_percentage=float(Fraction(c["par"])))
+            else:
+                sizer = LongShortLeveragedOrderSizer(broker, "pf", dh, gross_leverage=float(Fraction(c["par"])))
+            if pool is not None:
+                pool[key] = (sizer, broker, dh)
         # shuffled insertion order: the result must not depend on it
         items = list(weights.items())
         random.Random(len(items)).shuffle(items)
@@ -197,6 +207,7 @@ def run(prop, replay_file=None):
         def skip(_c):
             rep.cov["skipped_overflow"] = rep.cov.get("skipped_overflow", 0) + 1
 
+        pool = {}
         for k in range(0, len(cases), 4000):
             chunk = cases[k:k + 4000]
             try:
@@ -210,6 +221,16 @@ def run(prop, replay_file=None):
                 got = call_real(c)
                 rep.cov["evaluations"] += 1
                 ok, why = judge(exp, got)
+                if ok:
+                    # the same input to a sizer object that has already sized other inputs (other asset sets, prices,
+                    # equity): an order sizer lives as long as its backtest and is called at every rebalance
+                    again = call_real(c, pool)
+                    if again != got:
+                        ok, why = judge(exp, again)
+                        if ok:
+                            ok, why = False, "reuse: a fresh sizer answered %s" % (list(got),)
+                        why = "reused-sizer " + why
+                        got = again
                 if not ok:
                     key = "%s|%s" % (c["kind"], why.split(":")[0])
                     rep.violation(key, "%s; case %s; real sizer answered %s, specification admits %s" % (why, c, got, _show(exp)),
